@@ -87,7 +87,7 @@ impl Family for C19Family {
                 locals.push(Local { phase: i, delay_ms: r.below(50) as u64, nbytes: 10, expect_served: false });
             }
         }
-        (serde_json::to_value(C19Plan { script, max_count, max_iv, hs_to_s, ch_to_s, locals }).expect("plan"), seed)
+        (serde_json::to_value(C19Plan { script, max_count, max_iv, hs_to_s, ch_to_s, locals, keepalive_ms: [0, 0] }).expect("plan"), seed)
     }
     fn records_decisions(&self) -> bool {
         false
@@ -101,6 +101,78 @@ impl Family for C19Family {
     }
 }
 
+/// the tunnel is lost because the path to the server dies without a word: only the client's
+/// keepalive (or a stream request timing out) can tell
+pub struct C19KaFamily;
+impl Family for C19KaFamily {
+    fn name(&self) -> &'static str {
+        "silent-peer"
+    }
+    fn runs(&self, tier: Tier) -> u64 {
+        if tier == Tier::Quick { 30_000 } else { 1_000_000 }
+    }
+    fn generate(&self, batch_seed: u64, index: u64, _tier: Tier) -> (Value, u64) {
+        use c19::*;
+        let seed = simcore::prng::mix(batch_seed, "silent-peer", index);
+        let mut r = Prng::new(seed);
+        let r = &mut r;
+        let iv = *r.pick(&[500u64, 1000, 2000, 5000, 25_000]);
+        // below the interval (clamped up to it), equal, a multiple, not a multiple; rarely none
+        let t_req = if r.chance(1, 12) { 0 } else { *r.pick(&[iv / 2, iv, 2 * iv, 2 * iv + 700, 3 * iv]) };
+        let n = 1 + r.below(4);
+        // never a multiple of the interval: a Ping leaving at the instant the path dies is ambiguous
+        let silent = |r: &mut Prng| Beh::GoSilent(r.below(4) as u64 * iv + 1 + r.below(iv as usize - 1) as u64);
+        let mut script: Vec<Beh> = (0..n)
+            .map(|_| match r.below(7) {
+                0 => Beh::Refuse,
+                1 => Beh::CloseAfter(50 + r.below(3000) as u64),
+                2 => Beh::ResetAfter(50 + r.below(3000) as u64),
+                3 => Beh::SilentClose(50 + r.below(900) as u64),
+                _ => silent(r),
+            })
+            .collect();
+        if !script.iter().any(|b| matches!(b, Beh::GoSilent(_))) {
+            let at = r.below(script.len());
+            script[at] = silent(r);
+        }
+        script.push(if r.chance(1, 6) { Beh::Refuse } else { Beh::Healthy });
+        let max_count = *r.pick(&[0u32, 1, 2, 3, 5]);
+        let max_iv = *r.pick(&[100u64, 300, 1000, 10_000, 300_000]);
+        let hs_to_s = *r.pick(&[0u64, 1, 3]);
+        let ch_to_s = *r.pick(&[1u64, 2, 5, 30]);
+        // local connections only from the last phase with a live multiplexor on: an earlier one
+        // would acknowledge (and never echo) what was parked; in that phase itself, if it is a
+        // GoSilent, they arrive during the silence and are in flight when the connection is given up
+        let first_ok = script.iter().rposition(|b| matches!(b, Beh::CloseAfter(_) | Beh::ResetAfter(_) | Beh::GoSilent(_))).unwrap_or(0);
+        let mut locals = vec![];
+        for (i, b) in script.iter().enumerate() {
+            if i < first_ok {
+                continue;
+            }
+            match b {
+                Beh::GoSilent(d) if i == first_ok && r.chance(2, 3) => {
+                    let t = if t_req == 0 { iv } else { t_req.max(iv) };
+                    locals.push(Local { phase: i, delay_ms: d + 1 + r.below((t + iv) as usize) as u64, nbytes: 1 + r.below(3000), expect_served: true });
+                }
+                Beh::Refuse if i > first_ok && r.chance(1, 3) => locals.push(Local { phase: i, delay_ms: r.below(150) as u64, nbytes: 1 + r.below(3000), expect_served: true }),
+                Beh::SilentClose(d) if i > first_ok && r.chance(2, 3) => locals.push(Local { phase: i, delay_ms: r.below((*d as usize).min(150)) as u64, nbytes: 1 + r.below(3000), expect_served: true }),
+                Beh::Healthy if i > first_ok && r.chance(1, 2) => locals.push(Local { phase: i, delay_ms: r.below(150) as u64, nbytes: 1 + r.below(3000), expect_served: true }),
+                _ => {}
+            }
+        }
+        (serde_json::to_value(C19Plan { script, max_count, max_iv, hs_to_s, ch_to_s, locals, keepalive_ms: [iv, t_req] }).expect("plan"), seed)
+    }
+    fn records_decisions(&self) -> bool {
+        false
+    }
+    fn exec(&self, plan: &Value, sched: &Sched, _record: bool) -> Outcome {
+        let Ok(plan) = serde_json::from_value::<c19::C19Plan>(plan.clone()) else { return Outcome::default() };
+        c19::run(&plan, sched)
+    }
+    fn rule(&self) -> &'static str {
+        "the real client with keepalive (interval 0.5-25 s; timeout below the interval, equal, a multiple, not a multiple, or none), timed on the simulated clock through the guarded hook, against scripts of 2-5 behaviours with at least one GoSilent(d): handshake, a live multiplexor for d ms (d never a multiple of the interval), then the path dies without a word (nothing is delivered in either direction any more, nothing fails); other entries: refuse, orderly Close / TCP reset after d, silent-then-Close, healthy. A local connection may arrive during the silence (its request is in flight when the connection is given up). Oracle: the connection is given up no earlier than T and no later than T + I after the last Pong (Pings leave at connect + k I in this latency-free world), or exactly channel_timeout after the first request made during the silence if that comes first; from there on the lifecycle clauses apply (retry 200 ms later, back-off, give-up count, parked connection echoed by the next healthy connection). Non-trivial: at least two attempts."
+    }
+}
 
 pub struct C01Family;
 impl Family for C01Family {
@@ -150,6 +222,8 @@ impl Family for C01Family {
                 15 | 16 => (0, 3),
                 17 => (1, 4),
                 18 => (0, 5),
+                19 if r.chance(1, 2) => (3, 6),
+                19 => (4, if r.chance(1, 2) { 0 } else { 1 }),
                 _ => (1, 0),
             };
             let mut up = sizes(r, big);
@@ -162,7 +236,16 @@ impl Family for C01Family {
             if target_mode == 4 {
                 down = vec![];
             }
-            let early_k = r.below(up.iter().sum::<usize>() + 1);
+            let mut early_k = r.below(up.iter().sum::<usize>() + 1);
+            if target_mode == 6 {
+                // a request, then an answer long enough to use up a small window while the client leaves
+                up = (0..r.below(3)).map(|_| *r.pick(&[1usize, 100, 1000])).collect();
+                down = vec![*r.pick(&[4096usize, 65_536]); 4 + r.below(20)];
+                early_k = r.below(3) * 1000;
+                if r.chance(1, 2) {
+                    small_buffers = true;
+                }
+            }
             tcp.push(TcpConn { entry: r.below(10) as u8, start_ms: r.below(300) as u64, up, down, up_gap_ms: *r.pick(&[0u64, 0, 1, 30]), down_gap_ms: *r.pick(&[0u64, 0, 1, 30]), client_end, target_mode, early_k, target_read_delay_ms: if big { 2000 } else { *r.pick(&[0u64, 0, 0, 500]) } });
         }
         if small_buffers {
@@ -182,11 +265,21 @@ impl Family for C01Family {
             }
         }
         let udp = (0..n_udp)
-            .map(|_| UdpClient { via_socks: r.chance(1, 2), target: r.below(n_udp_targets), start_ms: r.below(200) as u64, sizes: (0..(1 + r.below(4))).map(|_| *r.pick(&[0usize, 1, 2, 3, 4, 13, 100, 1400, 9000])).collect(), gap_ms: if r.chance(1, 6) { *r.pick(&[10_500u64, 15_000, 19_500, 25_000]) } else { *r.pick(&[0u64, 10, 300, 900]) }, hops: (0..4).map(|_| r.below(2)).collect(), junk: (0..4).map(|_| if r.chance(1, 4) { 1 + r.below(4) as u8 } else { 0 }).collect(), v6: { let mixed = r.chance(1, 4); (0..4).map(|_| mixed && r.chance(1, 2)).collect() } })
+            .map(|_| UdpClient { via_socks: r.chance(1, 2), target: r.below(n_udp_targets), start_ms: r.below(200) as u64, sizes: (0..(1 + r.below(4))).map(|_| *r.pick(&[0usize, 1, 2, 3, 4, 13, 100, 1400, 9000])).collect(), gap_ms: if r.chance(1, 6) { *r.pick(&[10_500u64, 15_000, 19_500, 25_000]) } else { *r.pick(&[0u64, 10, 300, 900]) }, hops: (0..4).map(|_| r.below(2)).collect(), junk: (0..4).map(|_| if r.chance(1, 4) { 1 + r.below(4) as u8 } else { 0 }).collect(), v6: { let mixed = r.chance(1, 4); (0..4).map(|_| mixed && r.chance(1, 2)).collect() }, alt_local: false })
             .collect();
+        // a quarter of the runs with UDP remotes bind them to the wildcard address (no local host in
+        // the remote specification); some clients then come in through the secondary local address
+        let udp_wildcard = n_udp > 0 && r.chance(1, 4);
+        let mut udp: Vec<UdpClient> = udp;
+        if udp_wildcard {
+            for c in &mut udp {
+                c.alt_local = !c.via_socks && r.chance(1, 2);
+            }
+        }
         // the stream-request channel of the client has 64 slots
         let idle_remotes = if r.chance(1, 12) { *r.pick(&[10usize, 63, 64, 65, 80]) } else { 0 };
-        (serde_json::to_value(C01Plan { net, tcp, udp, n_udp_targets, idle_remotes }).expect("plan"), seed)
+        let keepalive_ms = if net.latency_hi == 0 && r.chance(1, 3) { [*r.pick(&[500u64, 2000, 25_000]), 60_000] } else { [0, 0] };
+        (serde_json::to_value(C01Plan { net, tcp, udp, n_udp_targets, idle_remotes, keepalive_ms, udp_wildcard }).expect("plan"), seed)
     }
     fn records_decisions(&self) -> bool {
         false
@@ -382,9 +475,9 @@ fn c19() -> Check {
         property: "C19",
         engine: "syssim",
         level: "fault_enumeration",
-        families: vec![Box::new(C19Family), Box::new(BackoffFamily)],
-        required_probes: vec!["retry-checked", "stream-request-timeout-checked", "backoff-capped", "gave-up-after-max-retries", "non-retryable-failure", "established-connection-lost", "parked-local-connection-served", "request-in-flight-at-loss", "fault:tcp-reset", "fault:tcp-refused"],
-        assumptions: vec!["zero network latency in this family so that retry instants are exact; TLS is not simulated (ws://)", "the client's keepalive is off (Multiplexor::new_with_opt hard-wires std::time::Instant; keepalive is decided in C16)"],
+        families: vec![Box::new(C19Family), Box::new(C19KaFamily), Box::new(BackoffFamily)],
+        required_probes: vec!["retry-checked", "stream-request-timeout-checked", "backoff-capped", "gave-up-after-max-retries", "non-retryable-failure", "established-connection-lost", "parked-local-connection-served", "request-in-flight-at-loss", "lost-by-keepalive-expiry", "fault:tcp-reset", "fault:tcp-refused", "fault:tcp-blackhole"],
+        assumptions: vec!["zero network latency in this family so that retry instants are exact; TLS is not simulated (ws://)", "the client's keepalive (family silent-peer only) is timed on tokio's paused clock through the guarded hook verif_hooks::SimInstant; production uses std::time::Instant"],
         real: vec!["penguin client: client_main_inner, retry loop + Backoff, ws_connect::handshake (timeout select), on_connected, get_send_stream_chan, handle_remote/tcp listener", "tokio-tungstenite client and server", "penguin server run_listener + hyper + forwarder (healthy phases)", "penguin-mux with the real tungstenite WebSocket"],
         stub: vec!["tokio::net (penguin-simnet: in-memory sockets, refusal, reset)", "the scripted server (one behaviour per attempt)", "clock (tokio paused)", "tokio scheduler RNG (seeded)"],
     }
